@@ -103,16 +103,19 @@ def nonbindable(kind):
         "interp": lambda: A.IStr(["a", S("b")]), "call": lambda: A.call("g"), "binop": lambda: A.Bin("+", V("n"), I(1)),
         "range": lambda: A.Range(I(0), I(2)), "anon_fn": lambda: A.FuncE([], False, []), "paren_literal": lambda: A.Paren(I(1)),
         "type_call": lambda: A.Call(A.Prop(V("n"), "type", True), []), "cmp": lambda: A.Bin("==", V("n"), V("n")),
+        "type_prop": lambda: A.Prop(V("n"), "type", True), "type_prop_on_object": lambda: A.Prop(V("ob"), "a", True),
+        "type_prop_on_string": lambda: A.Prop(A.Str("s"), "len", True),
     }[kind]()
 
 
-NONBIND = ["null", "bool", "int", "neg_int", "string", "interp", "call", "binop", "range", "anon_fn", "paren_literal", "type_call", "cmp"]
+NONBIND = ["null", "bool", "int", "neg_int", "string", "interp", "call", "binop", "range", "anon_fn", "paren_literal", "type_call", "cmp",
+           "type_prop", "type_prop_on_object", "type_prop_on_string"]
 POSITIONS = ["declare", "assign", "opassign", "list_pattern", "object_pattern", "param", "for_target", "nested_assign", "collect_target"]
 
 
 def nonbind_prog(kind, pos):
     K = nonbindable(kind)
-    pre = [A.Declare(V("n"), I(1)), A.FuncStmt("g", [], False, [A.Return(I(1))]), A.pr(S("before"))]
+    pre = [A.Declare(V("n"), I(1)), A.Declare(V("ob"), A.obj(("a", I(1)))), A.FuncStmt("g", [], False, [A.Return(I(1))]), A.pr(S("before"))]
     if pos == "declare":
         st = [A.Declare(K, I(1))]
     elif pos == "assign":
